@@ -1,4 +1,4 @@
-//go:build c05 || c18
+//go:build c05 || c18 || c19
 
 package main
 
